@@ -208,6 +208,13 @@ structure Ext where
       identity (same error type).  `errFrom ret x` (with `ret` the declared return type of the enclosing
       function) may give the converted error instead; `none` = identity. -/
   errFrom : String → Value → Option Value
+  -- [threads] begin: added hook (has a default, so `Ext.none` and every `{ Ext.none with .. }` are unchanged)
+  /-- `&mut e` where `e` evaluates to a `Value.ext`.  The core has no rule for a mutable borrow (a
+      transparent reference would lose the callee's assignments through it).  A dictionary whose objects
+      are HANDLES to external things (a channel web, a file: their state is not in the value, every
+      operation on them is an event) may say that the borrow of a handle is the handle. `none` = stuck. -/
+  refMut : Inputs → Value → St → Option Res := fun _ _ _ => Option.none
+  -- [threads] end
 
 /-- the empty dictionary -/
 def Ext.none : Ext where
@@ -1045,6 +1052,9 @@ def runUnary (ctx : Ctx) (op : UnOp) (v : Value) (st : St) : Res :=
   match op, v with
   | .deref, .ext tag args =>
     firstRule (ctx.ext.deref ctx.inputs (.ext tag args) st) (.stuck "deref of an extension object without a rule")
+  -- [threads] `&mut e` on an extension object: the dictionary's business (`Ext.refMut`); without a rule stuck as before
+  | .refMut, .ext tag args =>
+    firstRule (ctx.ext.refMut ctx.inputs (.ext tag args) st) (.stuck "&mut borrow")
   | _, _ => unOp op v st
 
 /-! ## 3. Evaluation -/
@@ -1074,6 +1084,9 @@ def matchPat : Nat → String → Pat → Value → Option (Bool × List (String
     match l, v with
     | .int n _, .int _ a => some (decide (a = if neg then -(n : Int) else n), [])
     | .bool b, .bool c => if neg then none else some (c == b, [])
+    -- [shm] begin: a string literal pattern (`Some("")`) matches a `&str` with exactly that content
+    | .str s, .str t => if neg then none else some (decide (t = s), [])
+    -- [shm] end
     | _, _ => none
   | _ + 1, _, .range lo hi incl, v =>
     match v with
@@ -1271,6 +1284,53 @@ def fnPathArgs : List Value → List Expr
   | _ :: _ :: _ => [.path ["{arg0}"], .path ["{arg1}"]]
 -- [errors] END --------------------------------------------------------------------------------------
 
+-- [poller] begin: by-reference arguments of calls of functions of `fns`
+/-- Rust: `f(&mut x)` lends the caller's local variable `x` to `f` for the duration of the call; inside `f`
+    the parameter (`p: &mut T`) is used through auto-deref (`p.m()`, `p.f = ..`, `*p = ..`), i.e. like a
+    variable holding the value of `x`, and what `f` leaves in it is what `x` holds after the call.  The
+    interpreter has no aliasing: as for the receiver of a `&mut self` method, the parameter is BOUND TO THE
+    VALUE of `x` (here) and the final value is WRITTEN BACK on return (`writeBackArgs`).  `&mut x` arrives as
+    the object `ext "&mut" [x]` (rule `[poller]` of `eval`).  Arguments that are not such objects are
+    untouched.  Sound as long as the callee does not also reach `x` by another path (Rust's borrow checker
+    forbids it) and does not shadow the parameter by a `let` of the same name at function level (as for
+    `self`; not checked). -/
+def derefArgs (env : List (String × Value)) : List Value → Option (List Value)
+  | [] => some []
+  | .ext "&mut" [.str x] :: rest =>
+    match envGet env x, derefArgs env rest with
+    | some v, some vs => some (v :: vs)
+    | _, _ => none
+  | v :: rest =>
+    match derefArgs env rest with
+    | some vs => some (v :: vs)
+    | none => none
+
+/-- on return from a function of `fns`: for every argument `&mut x` (its parameter must be a plain binding
+    `p`; any other pattern: no rule) the callee's final value of `p` is stored into the caller's `x`.
+    `callee` = the callee's final environment, `env` = the caller's. -/
+def writeBackArgs (callee : List (String × Value)) :
+    List (Pat × String) → List Value → List (String × Value) → Option (List (String × Value))
+  | [], [], env => some env
+  | (pat, _) :: ps, .ext "&mut" [.str x] :: rest, env =>
+    match pat with
+    | .bind p =>
+      match envGet callee p with
+      | some v =>
+        match envSet env x v with
+        | some env' => writeBackArgs callee ps rest env'
+        | none => none
+      | none => none
+    | _ => none
+  | _ :: ps, _ :: rest, env => writeBackArgs callee ps rest env
+  | _, _, _ => none
+
+/-- does the function declare a parameter of a type `&mut T` (the type text starts with `&mut`)?  Only such
+    functions take the by-reference path of `callDecl`; for every other function `callDecl` is what it was. -/
+def hasMutRefParam : List (Pat × String) → Bool
+  | [] => false
+  | (_, ty) :: rest => if ty.startsWith "&mut" = true then true else hasMutRefParam rest
+-- [poller] end
+
 /-- bind the arguments to the parameter patterns (ascribing the declared types) -/
 def bindParams : Nat → String → List (Pat × String) → List Value → Option (List (String × Value))
   | 0, _, _, _ => none
@@ -1284,6 +1344,28 @@ def bindParams : Nat → String → List (Pat × String) → List Value → Opti
       | _, _ => none
   | _ + 1, _, [], _ :: _ => none
   | _ + 1, _, _ :: _, [] => none
+
+-- [threads] begin: helpers of the added core rules (std `Vec::push`, closures that are thunks, `filter` / `map(..).collect()`)
+
+/-- std: `Vec::push(&mut self, x)` appends `x`; the new vector (the caller writes it back to the receiver place) -/
+def listPush : Value → String → List Value → Option Value
+  | .list xs, "push", [x] => some (.list (xs ++ [x]))
+  | _, _, _ => none
+
+/-- the values of the local variables (place expressions) a closure body passes on: read, not evaluated -/
+def captureArgs (n : Nat) : List Expr → St → Option (List Value)
+  | [], _ => some []
+  | e :: es, st =>
+    match readPlace n e st, captureArgs n es st with
+    | some v, some vs => some (v :: vs)
+    | _, _ => none
+
+/-- the items whose predicate value is `true` (`rs` = the predicate's values, a `list` of `bool`s of the same length) -/
+def filterBy : List Value → Value → Option (List Value)
+  | [], .list [] => some []
+  | v :: vs, .list (.bool b :: bs) => (filterBy vs (.list bs)).map fun l => if b = true then v :: l else l
+  | _, _ => none
+-- [threads] end
 
 mutual
 
@@ -1320,6 +1402,17 @@ def eval : Nat → Ctx → Frame → Expr → St → Res
         match v with
         | .tuple vs => orStuck "tuple index out of range" (listGet vs i) fun w => .val w st
         | _ => .stuck "tuple index on a non-tuple"
+    -- [threads] `f(|| g(x, y))` / `f(move || g(x, y))`: a call whose only argument is a parameterless closure that
+    -- does nothing but call a path on LOCAL VARIABLES (`spawn(move || shm_writer::run(ctx, max_drift_ppb))`).  Such a
+    -- closure is the thunk "call `g` on these values": `ext "thunk" [str <canonical name of g>, list [values]]`.  The
+    -- variables are only READ (`readPlace`, nothing is evaluated), now: a closure captures them by move or by
+    -- reference, and Rust's borrow rules keep a captured variable unchanged while the closure lives.  Only the
+    -- extension dictionary can give `f` a meaning (`Ext.call` with the thunk as the one argument); else stuck, as before.
+    | .call segs [.closure [] (.call fsegs fargs)] =>
+      orStuck "closure argument: it is not a call on local variables" (captureArgs n fargs st) fun vs =>
+        firstRule (ctx.ext.call ctx.inputs (canon fr.selfTy segs)
+            [.ext "thunk" [.str (canon fr.selfTy fsegs), .list vs]] st)
+          (.stuck "call with a closure argument: no rule")
     | .call segs args =>
       (evalList n ctx fr args st).bind fun av st =>
         match av with
@@ -1368,7 +1461,28 @@ def eval : Nat → Ctx → Frame → Expr → St → Res
           orStuck "closure: arguments do not fit the parameters" (matchPat.matchPats n fr.selfTy ps args) fun (_, bs) =>
             (((eval n ctx fr body { st with env := bs ++ st.env }).on (fun v st => .val v st) (fun v st => .val v st)).popTo
               st.env.length).bind fun v st => .val (wrapWith w v) st
-        | none => .stuck "method with a closure argument: no rule"
+        | none =>
+          -- [threads] std `Iterator::filter(pred)` on the items of a list (`xs.iter().filter(|x| ..)`, `map.keys().filter(..)`).
+          -- Rust's adaptor is LAZY (the predicate runs when the iterator is consumed); evaluating it here, on every
+          -- item, is the same thing exactly when the predicate is pure and total: it must complete with a `bool` on
+          -- every item without consuming an input or logging an event (checked: `pos` and the length of the
+          -- append-only log are unchanged), otherwise there is no rule.  The predicate gets a reference to the item
+          -- (references are transparent).
+          match rv, m with
+          | .list items, "filter" =>
+            (evalEach n ctx fr ps body items st).bind fun rs st' =>
+              if st'.pos = st.pos ∧ st'.log.length = st.log.length then
+                orStuck "filter: the predicate did not yield a bool" (filterBy items rs) fun l => .val (.list l) st'
+              else .stuck "filter: predicate with effects (laziness is not modelled)"
+          | _, _ => .stuck "method with a closure argument: no rule"
+    -- [threads] std `xs.map(f).collect()` on the items of a list, as ONE construct (a `map` adaptor alone is lazy and has
+    -- no rule): `f` is applied to the items in order, its effects happen in that order, the values are collected
+    -- into a `Vec`.  (`collect` into another collection type is not distinguished: the result is only a list.)
+    | .mcall (.mcall src "map" [.closure ps body]) "collect" [] =>
+      (eval n ctx fr src st).bind fun sv st =>
+        match sv with
+        | .list items => evalEach n ctx fr ps body items st
+        | _ => .stuck "map(..).collect(): no rule for this receiver"
     | .mcall recv m args =>
       (eval n ctx fr recv st).bind fun rv st =>
         -- [errors] BEGIN: a function path where a method of `Option` / `Result` expects a closure
@@ -1401,6 +1515,11 @@ def eval : Nat → Ctx → Frame → Expr → St → Res
                       else .val v st
                     | _ => .stuck "internal: callDecl result"
               | none =>
+                -- [threads] std `Vec::push`: the receiver place gets the extended vector
+                match listPush rv m vs with
+                | some l =>
+                  orStuck "receiver of push is not a place" (writePlace n recv l st) fun st' => .val .unit st'
+                | none =>
                 firstRule (ctx.ext.method ctx.inputs rv m vs st) (.stuck "method call without a rule")
           | _ => .stuck "internal: evalList result"
     -- [poller] `&mut x` of a LOCAL VARIABLE `x` (as in `f.read_to_string(&mut contents)`): the mutable
@@ -1410,6 +1529,11 @@ def eval : Nat → Ctx → Frame → Expr → St → Res
     -- it (`envSet`).  `&mut` of anything else stays without a rule (`unOp .refMut`).
     | .unary .refMut (.path [x]) =>
       match envGet st.env x with
+      -- [threads] a local that holds an object of an extension dictionary: the dictionary's `refMut` rule decides
+      | some (.ext tag args) =>
+        match ctx.ext.refMut ctx.inputs (.ext tag args) st with
+        | some r => r
+        | none => .val (.ext "&mut" [.str x]) st
       | some _ => .val (.ext "&mut" [.str x]) st
       | none => .stuck "&mut of something that is not a local variable"
     -- [errors] BEGIN: `&mut *p` where `p` is an object of an extension dictionary (a raw pointer): the
@@ -1586,6 +1710,21 @@ def evalFor : Nat → Ctx → Frame → Pat → List Stmt → List Value → St 
       ((evalBlock n ctx fr body { st with env := bs ++ st.env }).popTo st.env.length).loopNext
         fun st' => evalFor n ctx fr pat body rest st'
 
+/-- [threads] apply the closure `|ps| body` to each item in turn (one unit of fuel per item), threading the state;
+    the closure's values come back as a `list`.  The closure is applied as in the `Option`/`Result` methods: its
+    parameters are bound in the current environment and popped afterwards, `return` returns from the closure. -/
+def evalEach : Nat → Ctx → Frame → List Pat → Expr → List Value → St → Res
+  | 0, _, _, _, _, _, _ => .stuck "out of fuel"
+  | _ + 1, _, _, _, _, [], st => .val (.list []) st
+  | n + 1, ctx, fr, ps, body, v :: rest, st =>
+    orStuck "closure: arguments do not fit the parameters" (matchPat.matchPats n fr.selfTy ps [v]) fun (_, bs) =>
+      (((eval n ctx fr body { st with env := bs ++ st.env }).on (fun v st => .val v st) (fun v st => .val v st)).popTo
+        st.env.length).bind fun r st' =>
+          (evalEach n ctx fr ps body rest st').bind fun rs st'' =>
+            match rs with
+            | .list rs => .val (.list (r :: rs)) st''
+            | _ => .stuck "internal: evalEach result"
+
 /-- a list of expressions, left to right; the values come back as a `tuple` -/
 def evalList : Nat → Ctx → Frame → List Expr → St → Res
   | 0, _, _, _, _ => .stuck "out of fuel"
@@ -1664,12 +1803,33 @@ def evalArms : Nat → Ctx → Frame → List Arm → Value → St → Res
 def callDecl : Nat → Ctx → FnDecl → Value → List Value → St → Res
   | 0, _, _, _, _, _ => .stuck "out of fuel"
   | n + 1, ctx, d, self, args, st =>
+    -- [poller] a function that declares a `&mut T` parameter is called by `callDeclRef` (below); for every other
+    -- function the rule is the one that was there before, unchanged
+    if hasMutRefParam d.params = true then callDeclRef n ctx d self args st else
     orStuck "call: arguments do not fit the parameters" (bindParams n d.selfTy d.params args) fun bs =>
       let env := if d.self = .none then bs else bs ++ [("self", self)]
       let finish := fun (v : Value) (st' : St) =>
         orStuck "call: result does not fit the declared type" (ascribe d.ret v) fun v' =>
           .val (.tuple [v', (envGet st'.env "self").getD .unit]) { st' with env := st.env }
       (evalBlock n ctx ⟨d.module, d.selfTy, d.ret⟩ d.body { st with env := env }).on finish finish
+
+-- [poller] begin
+/-- `callDecl` for a function with a `&mut T` parameter (one more unit of fuel): an argument `&mut x` stands for
+    the value of the caller's `x` (`derefArgs`), and the callee's final value of the parameter is stored back
+    into `x` on return (`writeBackArgs`); otherwise as `callDecl`.  Its equations are NOT in the simp set of
+    `Proofs/RsEval.lean`; the group that needs them registers them (`Proofs/RsNow.lean`). -/
+def callDeclRef : Nat → Ctx → FnDecl → Value → List Value → St → Res
+  | 0, _, _, _, _, _ => .stuck "out of fuel"
+  | n + 1, ctx, d, self, args, st =>
+    orStuck "call: &mut argument of something that is not a local variable" (derefArgs st.env args) fun args' =>
+    orStuck "call: arguments do not fit the parameters" (bindParams n d.selfTy d.params args') fun bs =>
+      let env := if d.self = .none then bs else bs ++ [("self", self)]
+      let finish := fun (v : Value) (st' : St) =>
+        orStuck "call: result does not fit the declared type" (ascribe d.ret v) fun v' =>
+          orStuck "call: &mut argument bound by a pattern" (writeBackArgs st'.env d.params args st.env) fun env' =>
+          .val (.tuple [v', (envGet st'.env "self").getD .unit]) { st' with env := env' }
+      (evalBlock n ctx ⟨d.module, d.selfTy, d.ret⟩ d.body { st with env := env }).on finish finish
+-- [poller] end
 
 end
 
